@@ -1,0 +1,23 @@
+//go:build verif
+
+package stream
+
+import "io"
+
+// VerifC47CutoffRemaining returns the remaining cutoff of a writer created by
+// NewCutoffWriter.
+func VerifC47CutoffRemaining(w io.Writer) uint {
+	return w.(*cutoffWriter).cutoff
+}
+
+// VerifC47LineProcessorBuffer returns a copy of the incomplete line fragment
+// held by a LineProcessor.
+func VerifC47LineProcessorBuffer(p *LineProcessor) []byte {
+	return append([]byte(nil), p.buffer...)
+}
+
+// VerifC47PreemptableWriteCount returns the number of writes since the last
+// preemption check of a writer created by NewPreemptableWriter.
+func VerifC47PreemptableWriteCount(w io.Writer) uint {
+	return w.(*preemptableWriter).writeCount
+}
